@@ -416,7 +416,7 @@ impl SimChain {
             filter,
             filter_hash,
             tx_ids,
-            pow: wb.pow,
+            pow: wb.pow || self.pow == "dummy",
             root: wb.root,
         });
         id
